@@ -270,7 +270,11 @@ def script_walks(chk, binary, wd, seed, count):
         if sq["loop"] and non:
             for _ in range(rnd.choice([0, 0, 1, 1, 2, 3])):
                 frames.append(rnd.choice(pool[rnd.choice(non)["ty"]]))
-        frames.append(rnd.choice(pool[rnd.choice(fin if sq["loop"] else vs)["ty"]]))
+        last = list(rnd.choice(pool[rnd.choice(fin if sq["loop"] else vs)["ty"]]))
+        if last[:2] == [0x06, 0x1e] and last[2] == 1 and rnd.random() < 0.4:
+            # the long form of an abort: the result code followed by a receipt number (BMP 87)
+            last = [0x06, 0x1e, 0x04, last[3], 0x87] + rnd.choice([[0xff, 0xff], [0x00, 0x08], [0x99, 0x99], [0x47, 0x11]])
+        frames.append(last)
         return {"script": frames}
     out = []
     for _ in range(count):
